@@ -554,6 +554,18 @@ def run_jack(pe, acc, case):
                 progs += [('jack_matmul:mixed:%s' % mn, lambda Mx=Mx: L.jack_matmul(Mx, B), lambda Mx=Mx: L.matmul(Mx, B)),
                           ('jack_matmul:mixed-second:%s' % mn, lambda Mx=Mx: L.jack_matmul(B, Mx), lambda Mx=Mx: L.matmul(B, Mx)),
                           ('einsum:mixed:%s' % mn, lambda Mx=Mx: L.einsum('ij,jk->ik', Mx, B), lambda Mx=Mx: L.matmul(Mx, B))]
+            # complex entries whose real / imaginary part is a plain number (also as the first entry)
+            if kind == 'cobs':
+                Cn = A.copy()
+                Cn[0, 0] = pe.CObs(1.25, A[0, 0].imag)
+                Cn[1, 0] = pe.CObs(A[1, 0].real, -0.5)
+                progs += [('jack_matmul:cobs-number-parts', lambda: L.jack_matmul(Cn, B), lambda: L.matmul(Cn, B)),
+                          ('jack_matmul:cobs-number-parts-second', lambda: L.jack_matmul(B, Cn), lambda: L.matmul(B, Cn)),
+                          ('einsum:cobs-number-parts', lambda: L.einsum('ij,jk', Cn, B), lambda: L.matmul(Cn, B))]
+            # matrices of very small magnitude (1e-12): nothing in the product may be decided by an absolute tolerance
+            At, Bt = A * 1e-12, B * 1e-12
+            progs += [('jack_matmul:tiny', lambda: L.jack_matmul(At, B), lambda: L.matmul(At, B)), ('jack_matmul:tiny-both', lambda: L.jack_matmul(At, Bt), lambda: L.matmul(At, Bt)),
+                      ('einsum:tiny', lambda: L.einsum('ij,jk', B, At), lambda: L.matmul(B, At))]
             # the result of an exact operation on a matrix with plain numbers, handed on to the jackknife-based functions
             progs += [('jack_matmul:after-inv-of-mixed', lambda: L.jack_matmul(L.inv(M11), B), lambda: L.matmul(L.inv(M11), B)),
                       ('einsum:after-matmul-of-mixed', lambda: L.einsum('ij,jk', L.matmul(M00, B), B), lambda: L.matmul(L.matmul(M00, B), B)),
@@ -581,6 +593,7 @@ def run_jack(pe, acc, case):
                 acc.fail(name, sub, '%s (%s chain of %d, %s entries): result shape %s, expected %s' % (name, ik, N, kind, J.shape, ex.shape))
                 continue
             bad = None
+            mscale = magnitude(ex, pe)      # values are compared on the scale of the exact product (matrices of very small magnitude included)
             for idx in np.ndindex(ex.shape):
                 parts = [(J[idx], ex[idx])] if isinstance(ex[idx], pe.Obs) else [(J[idx].real, ex[idx].real), (J[idx].imag, ex[idx].imag)]
                 for pn, (g, e) in zip(('real', 'imag'), parts):
@@ -593,7 +606,7 @@ def run_jack(pe, acc, case):
                     if list(g.idl['A|r1']) != cfgs or type(g.idl['A|r1']) is not type(e.idl['A|r1']):
                         bad = 'entry %s (%s part): configuration list %s, operands live on %s' % (idx, pn, g.idl['A|r1'], e.idl['A|r1'])
                         break
-                    if not abs(g.value - e.value) <= 1e-12 * max(1.0, abs(e.value)):
+                    if not abs(g.value - e.value) <= 1e-12 * max(mscale, abs(e.value)):
                         bad = 'entry %s (%s part): value %r, exact %r' % (idx, pn, g.value, e.value)
                         break
                     dscale = np.max(np.abs(e.deltas['A|r1']))
